@@ -585,6 +585,11 @@ def run(ctx):
     spec_tie(ctx, cases)
     if ctx.tier == "thorough" and not ctx.replay:
         tlc_crosscheck(ctx, cases)
+    else:
+        try:
+            ctx.extra["tlc_crosscheck_last_thorough_run"] = json.load(open(os.path.join(vlib.VERIF, "evidence", "C03_tlc.json")))
+        except Exception:
+            pass
     if ctx.replay:
         print("replay:", [(c["op"], c["_res"], classify(c, c["_res"])[:3]) for c in cases][:3], [b["what"] for b in ctx.breaks])
 
@@ -674,6 +679,11 @@ def tlc_crosscheck(ctx, cases):
     finally:
         shutil.rmtree(work, ignore_errors=True)
     ctx.extra["tlc_crosscheck"] = stats
+    try:   # kept beside the evidence so that a later quick run can still report the last cross-check
+        json.dump({"seed": ctx.seed, "stats": stats, "disagreements": len(bad)},
+                  open(os.path.join(vlib.VERIF, "evidence", "C03_tlc.json"), "w"), indent=1)
+    except Exception:
+        pass
     for b in bad[:20]:
         ctx.breaks.append({"what": "TLC disagrees with the reference semantics on %s" % b["case"]["op"],
                            "case": {k: v for k, v in b["case"].items() if not k.startswith("_")},
